@@ -356,6 +356,56 @@ def check_c09(tier, seed):
                         R.violation("refused declaration (%s) but an output file was created  [%s]" % (kind, line), rp)
                     if prior == "previous-output" and now != prev:
                         R.violation("refused declaration (%s) but the existing output file was %s  [%s]" % (kind, "deleted" if now is None else "modified", line), rp)
+            # ---- declarations whose defect lies in how the Struct directives are *written* (the line format of the plan
+            # stream has one form per struct): the same directive reached through two Sets, pointer and value form of one
+            # struct, a struct type derived from another (`type B A`), a value form nothing supplies
+            hdr = "package %s\n\nimport \"github.com/mazrean/kessoku\"\n\n"
+            types_ = ("type F0 string\ntype F1 int\n\ntype Cfg struct {\n\tA F0\n\tB F1\n}\n\ntype Derived Cfg\n\nfunc LoadCfg() *Cfg { return &Cfg{} }\nfunc DefaultCfg() Cfg { return Cfg{} }\n"
+                      "func LoadDerived() *Derived { return &Derived{} }\n\ntype App struct{}\n\nfunc NewApp(a F0, b F1) *App { return &App{} }\n\n")
+            written = [
+                ("single-pointer-form", "accept", [], "var _ = kessoku.Inject[*App](\"Init\", kessoku.Set(kessoku.Provide(LoadCfg), kessoku.Struct[*Cfg]()), kessoku.Provide(NewApp))"),
+                ("single-value-form", "accept", [], "var _ = kessoku.Inject[*App](\"Init\", kessoku.Provide(DefaultCfg), kessoku.Struct[Cfg](), kessoku.Provide(NewApp))"),
+                ("same-directive-through-two-sets", "dup", ["F0", "F1"],
+                 "var SetA = kessoku.Set(kessoku.Provide(LoadCfg), kessoku.Struct[*Cfg]())\nvar SetB = kessoku.Set(kessoku.Struct[*Cfg]())\n\nvar _ = kessoku.Inject[*App](\"Init\", SetA, SetB, kessoku.Provide(NewApp))"),
+                ("pointer-and-value-form", "dup", ["F0", "F1"],
+                 "var SetA = kessoku.Set(kessoku.Provide(LoadCfg), kessoku.Struct[*Cfg]())\nvar SetB = kessoku.Set(kessoku.Provide(DefaultCfg), kessoku.Struct[Cfg]())\n\nvar _ = kessoku.Inject[*App](\"Init\", SetA, SetB, kessoku.Provide(NewApp))"),
+                ("derived-struct-type", "dup", ["F0", "F1"],
+                 "var _ = kessoku.Inject[*App](\"Init\", kessoku.Provide(LoadCfg), kessoku.Struct[*Cfg](), kessoku.Provide(LoadDerived), kessoku.Struct[*Derived](), kessoku.Provide(NewApp))"),
+                ("value-form-nothing-supplies", "orphan", ["Cfg"],
+                 "var _ = kessoku.Inject[*App](\"Init\", kessoku.Provide(LoadCfg), kessoku.Struct[*Cfg](), kessoku.Struct[Cfg](), kessoku.Provide(NewApp))"),
+            ]
+            for n, (label, kind, names, decl) in enumerate(written):
+                pk = "w%d" % n
+                d = os.path.join(M.root, pk)
+                os.makedirs(d)
+                src = hdr % pk + types_ + decl + "\n"
+                open(os.path.join(d, "k.go"), "w").write(src)
+                band = os.path.join(d, "k_band.go")
+                prev = "// Code generated by kessoku. DO NOT EDIT.\n\npackage %s\n\nfunc Previous() {}\n" % pk
+                for prior in ("fresh", "previous-output"):
+                    if os.path.exists(band):
+                        os.remove(band)
+                    if prior == "previous-output":
+                        open(band, "w").write(prev)
+                    rc, out = C.run([cli, "%s/k.go" % pk], cwd=M.root, extra_env=M.env(), timeout=300); runs += 1
+                    now = open(band).read() if os.path.exists(band) else None
+                    rp = {"kind": "input", "failing_input": src, "case": label, "prior_output": prior, "exit": rc, "stderr": out[-600:],
+                          "reproduce": "save failing_input as k.go in a package with github.com/mazrean/kessoku available, run `kessoku k.go`"}
+                    if kind == "accept":
+                        nfunc = len(re.findall(r"^func ", now or "", re.M))
+                        if rc != 0 or now is None or nfunc != 1:
+                            R.violation("valid declaration (%s): exit %d, %s functions emitted (want exit 0 and exactly one)" % (label, rc, nfunc if now else "no file,"), rp)
+                        continue
+                    if rc == 0:
+                        R.violation("declaration with a %s defect (%s) is accepted by the CLI (exit 0)" % (kind, label), rp)
+                        continue
+                    if not any(nm in out for nm in names):
+                        R.violation("the %s diagnostic (%s) names none of the types involved %s: %s" % (kind, label, names, out.strip().splitlines()[-1][:200]), rp)
+                    if prior == "fresh" and now is not None:
+                        R.violation("refused declaration (%s) but an output file was created" % label, rp)
+                    if prior == "previous-output" and now != prev:
+                        R.violation("refused declaration (%s) but the existing output file was %s" % (label, "deleted" if now is None else "modified"), rp)
+            R.coverage["written_form_cases"] = [w[0] for w in written]
         finally:
             M.close()
         R.coverage["cli_runs_on_planted_defects"] = runs
